@@ -10,14 +10,135 @@ use crate::util::*;
 mod attr;
 #[path = "docs_cost.rs"]
 mod cost;
+#[path = "docs_project.rs"]
+pub mod project;
+
+use serde_json::{json, Value as J};
+use std::io::Write;
 
 pub fn main(sub: &str, args: &[String]) -> i32 {
     match sub {
         s if s.starts_with("doc-attr-") => attr::main(s, args),
         s if s.starts_with("doc-cost-") => cost::main(s, args),
+        "doc-replay" => replay(args),
         _ => {
             eprintln!("unknown subcommand {}", sub);
             2
         }
     }
+}
+
+fn nchars(s: &str) -> usize {
+    s.chars().count()
+}
+
+/// Parse `text` in one DOM view and project it.  Everything the implementation does is data.
+fn view(text: &str, merged: bool) -> J {
+    let r = guarded(|| {
+        let parsed = if merged {
+            xml_dom::XmlDocument::from_raw_with_context(text, xml_dom::Context::from_text_expanded(true))
+        } else {
+            xml_dom::XmlDocument::from_raw(text)
+        };
+        match parsed {
+            Ok((rest, dom)) => {
+                json!({"parse": "ok", "rest": nchars(rest), "proj": project::project(&dom, text)})
+            }
+            Err(_) => json!({"parse": "err", "rest": 0}),
+        }
+    });
+    match r {
+        Ok(v) => v,
+        Err(msg) => json!({"parse": "panic", "rest": 0, "msg": msg}),
+    }
+}
+
+/// C04: print, re-parse, compare (library == and projection), re-print.
+fn round_trip(text: &str, proj1: &J) -> J {
+    let r = guarded(|| {
+        let (_, d1) = match xml_dom::XmlDocument::from_raw(text) {
+            Ok(v) => v,
+            Err(_) => return json!({"print": "none"}),
+        };
+        let s1 = format!("{}", d1);
+        match xml_dom::XmlDocument::from_raw(&s1) {
+            Ok((rest2, d2)) => {
+                let eq = d2 == d1;
+                let p2 = project::project(&d2, &s1);
+                let same = project::canonical(&p2) == project::canonical(proj1);
+                let s2 = format!("{}", d2);
+                let fix = s2 == s1;
+                let mut o = json!({"print": "ok", "reparse": "ok", "rest": nchars(rest2), "eq": eq,
+                                   "projsame": same, "fix": fix});
+                if !same {
+                    o["proj2"] = p2;
+                }
+                if !(eq && same && fix) || !rest2.is_empty() {
+                    o["s1"] = string_to_cps(&s1);
+                    if !fix {
+                        o["s2"] = string_to_cps(&s2);
+                    }
+                }
+                o
+            }
+            Err(_) => json!({"print": "ok", "reparse": "err", "rest": 0, "eq": false, "projsame": false,
+                             "fix": false, "s1": string_to_cps(&s1)}),
+        }
+    });
+    match r {
+        Ok(v) => v,
+        Err(msg) => json!({"print": "panic", "reparse": "none", "rest": 0, "eq": false, "projsame": false,
+                           "fix": false, "msg": msg}),
+    }
+}
+
+fn accepted(v: &J) -> bool {
+    v["parse"] == "ok" && v["rest"] == 0
+}
+
+/// doc-replay --in <REPLAY lines or ndjson cases {toks, style, text, wf, viol, inprofile, tree}> --out <ndjson>
+/// One observation event per case.  `fast` = the observation equals the expectation carried by the
+/// case (fast path for "ok" only; the verdict of every event that is judged is computed by
+/// spec/Trace_Doc.tla from `toks`).
+fn replay(args: &[String]) -> i32 {
+    let inp = arg_value(args, "--in").unwrap_or("-");
+    let out = arg_value(args, "--out").unwrap_or("-");
+    let mut w = open_out(out);
+    let mut i = 0usize;
+    for_each_case(inp, |case| {
+        i += 1;
+        let text = cps_to_string(&case["text"]);
+        let raw = view(&text, false);
+        let merged = view(&text, true);
+        let rt = if raw["parse"] == "ok" {
+            round_trip(&text, &raw["proj"])
+        } else {
+            json!({"print": "none"})
+        };
+        let wf = case["wf"].as_bool().unwrap_or(false);
+        let inprofile = case["inprofile"].as_bool().unwrap_or(true);
+        let rt_ok = rt["print"] == "ok"
+            && rt["reparse"] == "ok"
+            && rt["rest"] == 0
+            && rt["eq"] == true
+            && rt["projsame"] == true
+            && rt["fix"] == true;
+        let fast = if wf && inprofile {
+            let exp = project::canonical(&case["tree"]);
+            accepted(&raw)
+                && accepted(&merged)
+                && project::canonical(&raw["proj"]) == exp
+                && project::canonical(&merged["proj"]) == exp
+                && rt_ok
+        } else if !wf {
+            !accepted(&raw) && !accepted(&merged) && raw["parse"] != "panic" && merged["parse"] != "panic"
+        } else {
+            raw["parse"] != "panic" && merged["parse"] != "panic" && (!accepted(&raw) || rt_ok)
+        };
+        let ev = json!({"i": i, "toks": case["toks"], "style": case["style"], "text": case["text"],
+                        "wf": case["wf"], "viol": case["viol"],
+                        "raw": raw, "merged": merged, "rt": rt, "fast": fast});
+        writeln!(w, "{}", ev).unwrap();
+    });
+    0
 }
